@@ -1,1 +1,347 @@
-//! stub
+//! ProcMonitor: runs the real `xt` binary built from the working tree and
+//! records what a user would observe: wait status (exit code or signal),
+//! stdout and stderr bytes. Stdout can be a pipe, a file, a pseudo-terminal, a
+//! consumer that closes after k bytes, or /dev/full.
+
+use std::ffi::CString;
+use std::fs::File;
+use std::io::{Read, Write};
+use std::os::unix::io::{FromRawFd, RawFd};
+use std::os::unix::process::{CommandExt, ExitStatusExt};
+
+/// No core dumps from children (inherited).
+pub fn no_core_dumps() {
+    unsafe {
+        let core = libc::rlimit { rlim_cur: 0, rlim_max: 0 };
+        libc::setrlimit(libc::RLIMIT_CORE, &core);
+    }
+}
+use std::path::{Path, PathBuf};
+use std::process::{Command, Stdio};
+use std::sync::atomic::{AtomicBool, AtomicU64, Ordering};
+use std::sync::Arc;
+use std::time::Duration;
+
+#[derive(Clone, Debug, PartialEq)]
+pub enum Status {
+    Exit(i32),
+    Signal(i32),
+    /// The wall-clock watchdog fired: inconclusive, never a verdict.
+    Timeout,
+    SpawnError(String),
+}
+
+impl Status {
+    pub fn show(&self) -> String {
+        match self {
+            Status::Exit(c) => format!("exit {c}"),
+            Status::Signal(s) => format!("killed by signal {s}"),
+            Status::Timeout => "watchdog timeout".into(),
+            Status::SpawnError(e) => format!("spawn error: {e}"),
+        }
+    }
+}
+
+#[derive(Clone, Debug)]
+pub struct ProcOut {
+    pub status: Status,
+    pub stdout: Vec<u8>,
+    pub stderr: Vec<u8>,
+}
+
+#[derive(Clone, Debug, PartialEq)]
+pub enum StdoutKind {
+    Pipe,
+    File,
+    Pty,
+    /// The consumer reads exactly k bytes, then closes its end.
+    CloseAfter(usize),
+    DevFull,
+}
+
+#[derive(Clone, Debug)]
+pub enum StdinKind {
+    /// Nothing connected (/dev/null).
+    Null,
+    Bytes(Vec<u8>),
+}
+
+pub struct Run<'a> {
+    pub bin: &'a Path,
+    pub argv: Vec<String>,
+    pub cwd: &'a Path,
+    pub stdin: StdinKind,
+    pub stdout: StdoutKind,
+    pub wall_secs: u64,
+    pub cpu_secs: u64,
+}
+
+static SCRATCH_N: AtomicU64 = AtomicU64::new(0);
+
+/// A fresh scratch directory under $XTV_OUT/scratch (removed by Drop).
+pub struct Scratch(pub PathBuf);
+
+impl Scratch {
+    pub fn new() -> Scratch {
+        let base = std::env::var("XTV_OUT").unwrap_or_else(|_| "/verif/out".into());
+        let n = SCRATCH_N.fetch_add(1, Ordering::Relaxed);
+        let p = PathBuf::from(format!("{base}/scratch/{}-{}", std::process::id(), n));
+        let _ = std::fs::create_dir_all(&p);
+        Scratch(p)
+    }
+    pub fn path(&self) -> &Path {
+        &self.0
+    }
+    pub fn file(&self, name: &str, content: &[u8]) -> PathBuf {
+        let p = self.0.join(name);
+        std::fs::write(&p, content).expect("write scratch file");
+        p
+    }
+    pub fn fifo(&self, name: &str) -> PathBuf {
+        let p = self.0.join(name);
+        let c = CString::new(p.to_str().unwrap()).unwrap();
+        unsafe {
+            libc::mkfifo(c.as_ptr(), 0o600);
+        }
+        p
+    }
+}
+
+impl Drop for Scratch {
+    fn drop(&mut self) {
+        let _ = std::fs::remove_dir_all(&self.0);
+    }
+}
+
+/// Feeds a FIFO from a background thread (open blocks until xt opens it too).
+pub fn feed_fifo(path: PathBuf, content: Vec<u8>) -> std::thread::JoinHandle<()> {
+    std::thread::spawn(move || {
+        // open non-blocking in a retry loop so that a reader that never comes cannot hang us forever
+        let c = CString::new(path.to_str().unwrap()).unwrap();
+        let mut fd = -1;
+        for _ in 0..2000 {
+            fd = unsafe { libc::open(c.as_ptr(), libc::O_WRONLY | libc::O_NONBLOCK) };
+            if fd >= 0 {
+                break;
+            }
+            std::thread::sleep(Duration::from_millis(5));
+        }
+        if fd < 0 {
+            return;
+        }
+        unsafe {
+            let flags = libc::fcntl(fd, libc::F_GETFL);
+            libc::fcntl(fd, libc::F_SETFL, flags & !libc::O_NONBLOCK);
+        }
+        let mut f = unsafe { File::from_raw_fd(fd) };
+        let _ = f.write_all(&content);
+    })
+}
+
+fn open_pty() -> Option<(RawFd, File)> {
+    unsafe {
+        let master = libc::posix_openpt(libc::O_RDWR | libc::O_NOCTTY);
+        if master < 0 {
+            return None;
+        }
+        if libc::grantpt(master) != 0 || libc::unlockpt(master) != 0 {
+            libc::close(master);
+            return None;
+        }
+        let mut buf = [0i8; 128];
+        if libc::ptsname_r(master, buf.as_mut_ptr(), buf.len()) != 0 {
+            libc::close(master);
+            return None;
+        }
+        let slave = libc::open(buf.as_ptr(), libc::O_RDWR | libc::O_NOCTTY);
+        if slave < 0 {
+            libc::close(master);
+            return None;
+        }
+        // raw-ish output: no NL -> CRNL translation, so bytes can be compared
+        let mut t: libc::termios = std::mem::zeroed();
+        if libc::tcgetattr(slave, &mut t) == 0 {
+            t.c_oflag &= !libc::OPOST;
+            libc::tcsetattr(slave, libc::TCSANOW, &t);
+        }
+        Some((master, File::from_raw_fd(slave)))
+    }
+}
+
+pub fn run(r: Run) -> ProcOut {
+    let mut cmd = Command::new(r.bin);
+    cmd.args(&r.argv).current_dir(r.cwd).stderr(Stdio::piped());
+    // keep argv[0] stable so that usage text is comparable
+    cmd.arg0("xt");
+    cmd.env_clear();
+    match &r.stdin {
+        StdinKind::Null => {
+            cmd.stdin(Stdio::null());
+        }
+        StdinKind::Bytes(_) => {
+            cmd.stdin(Stdio::piped());
+        }
+    }
+    let mut pty_master: Option<RawFd> = None;
+    let mut out_file: Option<PathBuf> = None;
+    match &r.stdout {
+        StdoutKind::Pipe | StdoutKind::CloseAfter(_) => {
+            cmd.stdout(Stdio::piped());
+        }
+        StdoutKind::File => {
+            let p = r.cwd.join(format!(".stdout-{}", SCRATCH_N.fetch_add(1, Ordering::Relaxed)));
+            match File::create(&p) {
+                Ok(f) => {
+                    cmd.stdout(Stdio::from(f));
+                    out_file = Some(p);
+                }
+                Err(e) => return ProcOut { status: Status::SpawnError(e.to_string()), stdout: vec![], stderr: vec![] },
+            }
+        }
+        StdoutKind::Pty => match open_pty() {
+            Some((m, slave)) => {
+                cmd.stdout(Stdio::from(slave));
+                pty_master = Some(m);
+            }
+            None => return ProcOut { status: Status::SpawnError("cannot open a pseudo-terminal".into()), stdout: vec![], stderr: vec![] },
+        },
+        StdoutKind::DevFull => match std::fs::OpenOptions::new().write(true).open("/dev/full") {
+            Ok(f) => {
+                cmd.stdout(Stdio::from(f));
+            }
+            Err(e) => return ProcOut { status: Status::SpawnError(e.to_string()), stdout: vec![], stderr: vec![] },
+        },
+    }
+    let mut child = match cmd.spawn() {
+        Ok(c) => c,
+        Err(e) => return ProcOut { status: Status::SpawnError(e.to_string()), stdout: vec![], stderr: vec![] },
+    };
+    drop(cmd); // closes the parent's copy of the pty slave / files
+    let pid = child.id() as i32;
+    // CPU-time limit on the child (set from outside so that spawning can use the
+    // fast posix_spawn path; the tiny window before it applies does not matter)
+    unsafe {
+        let lim = libc::rlimit { rlim_cur: r.cpu_secs, rlim_max: r.cpu_secs + 1 };
+        libc::prlimit(pid, libc::RLIMIT_CPU, &lim, std::ptr::null_mut());
+    }
+    let done = Arc::new(AtomicBool::new(false));
+    let timed_out = Arc::new(AtomicBool::new(false));
+    {
+        let done = done.clone();
+        let timed_out = timed_out.clone();
+        let wall = r.wall_secs;
+        std::thread::spawn(move || {
+            let mut waited = 0u64;
+            while waited < wall * 20 {
+                std::thread::sleep(Duration::from_millis(50));
+                if done.load(Ordering::Relaxed) {
+                    return;
+                }
+                waited += 1;
+            }
+            timed_out.store(true, Ordering::Relaxed);
+            unsafe {
+                libc::kill(pid, libc::SIGKILL);
+            }
+        });
+    }
+    // stdin writer
+    let stdin_thread = if let StdinKind::Bytes(b) = &r.stdin {
+        let mut si = child.stdin.take().unwrap();
+        let b = b.clone();
+        Some(std::thread::spawn(move || {
+            let _ = si.write_all(&b);
+        }))
+    } else {
+        None
+    };
+    // stderr reader
+    let mut se = child.stderr.take().unwrap();
+    let stderr_thread = std::thread::spawn(move || {
+        let mut v = vec![];
+        let _ = se.read_to_end(&mut v);
+        v
+    });
+    // stdout
+    let mut stdout = vec![];
+    match &r.stdout {
+        StdoutKind::Pipe => {
+            let mut so = child.stdout.take().unwrap();
+            let _ = so.read_to_end(&mut stdout);
+        }
+        StdoutKind::CloseAfter(k) => {
+            let mut so = child.stdout.take().unwrap();
+            let mut buf = vec![0u8; *k];
+            let mut got = 0;
+            while got < *k {
+                match so.read(&mut buf[got..]) {
+                    Ok(0) => break,
+                    Ok(n) => got += n,
+                    Err(_) => break,
+                }
+            }
+            buf.truncate(got);
+            stdout = buf;
+            drop(so); // the consumer goes away
+        }
+        StdoutKind::Pty => {
+            let m = pty_master.unwrap();
+            let mut f = unsafe { File::from_raw_fd(m) };
+            let mut buf = [0u8; 4096];
+            loop {
+                match f.read(&mut buf) {
+                    Ok(0) => break,
+                    Ok(n) => stdout.extend_from_slice(&buf[..n]),
+                    Err(_) => break, // EIO once the slave side is closed
+                }
+                if stdout.len() > 64 << 20 {
+                    break;
+                }
+            }
+        }
+        _ => {}
+    }
+    let status = child.wait();
+    done.store(true, Ordering::Relaxed);
+    if let Some(t) = stdin_thread {
+        let _ = t.join();
+    }
+    let stderr = stderr_thread.join().unwrap_or_default();
+    if let Some(p) = out_file {
+        stdout = std::fs::read(&p).unwrap_or_default();
+        let _ = std::fs::remove_file(&p);
+    }
+    let status = if timed_out.load(Ordering::Relaxed) {
+        Status::Timeout
+    } else {
+        match status {
+            Ok(s) => match (s.code(), s.signal()) {
+                (Some(c), _) => Status::Exit(c),
+                (None, Some(sig)) => {
+                    if sig == libc::SIGXCPU || sig == libc::SIGKILL {
+                        // CPU limit: the case is judged by the caller (C04 treats it as a hang)
+                        Status::Signal(sig)
+                    } else {
+                        Status::Signal(sig)
+                    }
+                }
+                _ => Status::SpawnError("no status".into()),
+            },
+            Err(e) => Status::SpawnError(e.to_string()),
+        }
+    };
+    ProcOut { status, stdout, stderr }
+}
+
+pub fn release_bin() -> PathBuf {
+    PathBuf::from(std::env::var("XTV_XT_RELEASE").unwrap_or_else(|_| "/verif/out/xtbin/release/xt".into()))
+}
+
+pub fn debug_bin() -> PathBuf {
+    PathBuf::from(std::env::var("XTV_XT_DEBUG").unwrap_or_else(|_| "/verif/out/xtbin/debug/xt".into()))
+}
+
+/// Convenience: run with default limits.
+pub fn simple(bin: &Path, cwd: &Path, argv: &[&str], stdin: StdinKind, stdout: StdoutKind) -> ProcOut {
+    run(Run { bin, argv: argv.iter().map(|s| s.to_string()).collect(), cwd, stdin, stdout, wall_secs: 60, cpu_secs: 30 })
+}
